@@ -3,7 +3,9 @@
 //! (compact by default, plain Vec with the `raw_strains` feature) and compares
 //! entries and results with the model's column for that implementation.
 
+#![cfg_attr(verif_degraded, allow(dead_code, unused_imports))]
 use crate::util::*;
+#[cfg(not(verif_degraded))]
 use rosu_pp::verif::StrainsVec;
 use serde::Deserialize;
 use serde_json::{json, Value};
@@ -52,7 +54,17 @@ fn tok_of(v: f64) -> Tok {
     ("pos".into(), v.round() as i64)
 }
 
+/// degraded build (the crate-internal API this module drives no longer has the shape it was written against): nothing is
+/// replayed here, the caller records that and decides on its other parts
+#[cfg(verif_degraded)]
+pub fn main(args: &[String]) -> i32 {
+    std::fs::write(&args[1], r#"{"scenarios": 0, "degraded": true, "raw_build": false, "mismatches": 0, "by_class": {}, "records": [], "samples": []}"#).unwrap();
+    println!("strainsvec-replay: DEGRADED build, internal StrainsVec API changed - nothing replayed");
+    0
+}
+
 /// `strainsvec-replay <scenarios.ndjson> <out.json>`
+#[cfg(not(verif_degraded))]
 pub fn main(args: &[String]) -> i32 {
     silence_panics();
     let scenarios: Vec<Scenario> = read_ndjson(&args[0]).into_iter().map(|v| serde_json::from_value(v).expect("scenario shape")).collect();
